@@ -263,10 +263,13 @@ class Gen:
             self.o.code(":", own)
             self.o.ws(" ")
             rt = self.r.choice(["number", "void", "Promise<void>", "string[]",
+                                "(x: number) => number", "(cb: (e: Err) => void, n: number) => void",
                                 "Promise<Map<string, Array<Record<string, number>>>>",
                                 "Map<string, Map<string, Array<Promise<Record<string, Array<number>>>>>>"])
             self.o.code(rt, own)
             self.features.add("return-type")
+            if rt.startswith("("):
+                self.features.add("function-type-return")      # balanced parentheses inside the return type (GD26's repair)
             if len(rt) > 30:
                 self.features.add("long-return-type")       # the brace lies more than 16 tokens after the ")"
         elif L == "Java" and self.r.random() < 0.2:
